@@ -32,18 +32,18 @@ theorem length_zero_isEmpty {α} (l : List α) : (l.length == 0) = l.isEmpty := 
   cases l <;> simp
 
 mutual
-/-- processing the block of one node: every dangling frame is closed, the node's rendering is produced except
-    for the end tags still owed (`S'`) -/
-theorem fold_node (ci : SCls → ClsInfo) (fm : Fmt) : ∀ (n : Node) (par : Option Nat) (pname : Option PStr) (k : Nat)
+/-- processing the block of one node: every dangling frame is closed, the node's events are produced except for the
+    end events still owed (`S'`) -/
+theorem fold_node : ∀ (n : Node) (par : Option Nat) (pname : Option PStr) (k : Nat)
     (S base : List Item) (acc : List (Ev × Item)),
     (∀ f ∈ S, par ≠ some f.id) → Stops par base → (∀ q, par = some q → q < k) →
     ∃ S' acc', (flatten par pname k n).foldl evStep (S ++ base, acc) = (S' ++ base, acc') ∧
-      pieces ci fm (acc' ++ closes S') = pieces ci fm (acc ++ closes S) ++ renderSpec ci fm pname n ∧
+      acc' ++ closes S' = acc ++ closes S ++ specEvents par pname k n ∧
       (∀ f ∈ S', k ≤ f.id)
   | .str c s, par, pname, k, S, base, acc, hS, hb, _ => by
     refine ⟨[], acc ++ closes S ++ [(Ev.string, ⟨k, par, .str c s pname⟩)], ?_, ?_, by simp⟩
     · simp [flatten, evStep, popWhile_spec par S base acc hS hb]
-    · simp [closes, renderSpec, pieces, piece]
+    · simp [closes, specEvents]
   | .tag i kids, par, pname, k, S, base, acc, hS, hb, hk => by
     simp only [flatten, List.foldl_cons]
     by_cases he : (kids.isEmpty && i.cbe) = true
@@ -55,7 +55,7 @@ theorem fold_node (ci : SCls → ClsInfo) (fm : Fmt) : ∀ (n : Node) (par : Opt
       have hcbe : i.cbe = true := by simpa using he
       refine ⟨[], acc ++ closes S ++ [(Ev.empty, ⟨k, par, .tag i 0⟩)], ?_, ?_, by simp⟩
       · simp [flattenL, evStep, popWhile_spec par S base acc hS hb, Payload.isEmptyElement, hcbe]
-      · simp [closes, renderSpec, pieces, piece, Payload.isEmptyElement, hcbe]
+      · simp [closes, specEvents, hcbe]
     · have hne : (Payload.tag i kids.length).isEmptyElement = false := by
         simp only [Payload.isEmptyElement, length_zero_isEmpty]
         simpa using he
@@ -64,14 +64,14 @@ theorem fold_node (ci : SCls → ClsInfo) (fm : Fmt) : ∀ (n : Node) (par : Opt
             acc ++ closes S ++ [(Ev.start, ⟨k, par, .tag i kids.length⟩)]) := by
         simp [evStep, popWhile_spec par S base acc hS hb, hne]
       rw [hstep]
-      obtain ⟨S2, acc2, h1, h2, h3⟩ := fold_forest ci fm kids (some k) (some i.name) (k + 1) []
+      obtain ⟨S2, acc2, h1, h2, h3⟩ := fold_forest kids (some k) (some i.name) (k + 1) []
         (⟨k, par, .tag i kids.length⟩ :: base) (acc ++ closes S ++ [(Ev.start, ⟨k, par, .tag i kids.length⟩)])
         (by simp) rfl (by intro q hq; cases hq; omega)
       refine ⟨S2 ++ [⟨k, par, .tag i kids.length⟩], acc2, ?_, ?_, ?_⟩
       · rw [h1]; simp
-      · rw [closes_append, ← List.append_assoc, pieces_append, h2]
-        simp only [renderSpec, he]
-        simp [closes, pieces, piece, hne, List.append_assoc]
+      · rw [closes_append, ← List.append_assoc, h2]
+        simp only [specEvents, he]
+        simp [closes, List.append_assoc]
       · intro f hf
         simp only [List.mem_append, List.mem_singleton] at hf
         rcases hf with hf | hf
@@ -80,19 +80,19 @@ theorem fold_node (ci : SCls → ClsInfo) (fm : Fmt) : ∀ (n : Node) (par : Opt
           · omega
         · subst hf; simp
 /-- processing the blocks of a forest of siblings -/
-theorem fold_forest (ci : SCls → ClsInfo) (fm : Fmt) : ∀ (ns : List Node) (par : Option Nat) (pname : Option PStr) (k : Nat)
+theorem fold_forest : ∀ (ns : List Node) (par : Option Nat) (pname : Option PStr) (k : Nat)
     (S base : List Item) (acc : List (Ev × Item)),
     (∀ f ∈ S, par ≠ some f.id) → Stops par base → (∀ q, par = some q → q < k) →
     ∃ S' acc', (flattenL par pname k ns).foldl evStep (S ++ base, acc) = (S' ++ base, acc') ∧
-      pieces ci fm (acc' ++ closes S') = pieces ci fm (acc ++ closes S) ++ renderL ci fm pname ns ∧
+      acc' ++ closes S' = acc ++ closes S ++ specEventsL par pname k ns ∧
       (∀ f ∈ S', f ∈ S ∨ k ≤ f.id)
   | [], par, pname, k, S, base, acc, _, _, _ => by
-    exact ⟨S, acc, by simp [flattenL], by simp [renderL], fun f hf => Or.inl hf⟩
+    exact ⟨S, acc, by simp [flattenL], by simp [specEventsL], fun f hf => Or.inl hf⟩
   | n :: ns, par, pname, k, S, base, acc, hS, hb, hk => by
     simp only [flattenL, List.foldl_append]
-    obtain ⟨S1, acc1, h1, h2, h3⟩ := fold_node ci fm n par pname k S base acc hS hb hk
+    obtain ⟨S1, acc1, h1, h2, h3⟩ := fold_node n par pname k S base acc hS hb hk
     rw [h1]
-    obtain ⟨S2, acc2, g1, g2, g3⟩ := fold_forest ci fm ns par pname (k + (flatten par pname k n).length) S1 base acc1
+    obtain ⟨S2, acc2, g1, g2, g3⟩ := fold_forest ns par pname (k + (flatten par pname k n).length) S1 base acc1
       (by
         intro f hf heq
         have := hk f.id heq
@@ -100,11 +100,124 @@ theorem fold_forest (ci : SCls → ClsInfo) (fm : Fmt) : ∀ (ns : List Node) (p
         omega)
       hb (by intro q hq; have := hk q hq; omega)
     refine ⟨S2, acc2, g1, ?_, ?_⟩
-    · rw [g2, h2]; simp [renderL, List.append_assoc]
+    · rw [g2, h2]; simp [specEventsL, List.append_assoc]
     · intro f hf
       rcases g3 f hf with h | h
       · exact Or.inr (h3 f h)
       · exact Or.inr (by omega)
 end
+
+/-- **`_event_stream` is the structural recursion**: the explicit tag stack over the pre-order chain yields exactly
+    the events of the tree -/
+theorem eventStream_flatten (n : Node) (par : Option Nat) (pname : Option PStr) (k : Nat) (hk : ∀ q, par = some q → q < k) :
+    eventStream (flatten par pname k n) = specEvents par pname k n := by
+  obtain ⟨S, acc, h1, h2, _⟩ := fold_node n par pname k [] [] [] (by simp) trivial hk
+  simp only [eventStream]
+  simp only [List.append_nil] at h1
+  rw [h1]
+  simpa [closes] using h2
+
+/-- the same over `descendants` of a tag (its own item is not in the stream; the children's parent is never on the stack) -/
+theorem eventStream_flattenL (ns : List Node) (par : Option Nat) (pname : Option PStr) (k : Nat) (hk : ∀ q, par = some q → q < k) :
+    eventStream (flattenL par pname k ns) = specEventsL par pname k ns := by
+  obtain ⟨S, acc, h1, h2, _⟩ := fold_forest ns par pname k [] [] [] (by simp) trivial hk
+  simp only [eventStream]
+  simp only [List.append_nil] at h1
+  rw [h1]
+  simpa [closes] using h2
+
+mutual
+/-- formatting the events of the spec and joining the pieces is the structural rendering -/
+theorem pieces_specEvents (ci : SCls → ClsInfo) (fm : Fmt) : ∀ (n : Node) (par : Option Nat) (pname : Option PStr) (k : Nat),
+    pieces ci fm (specEvents par pname k n) = renderSpec ci fm pname n
+  | .str c s, par, pname, k => by simp [specEvents, pieces, piece, renderSpec]
+  | .tag i kids, par, pname, k => by
+    simp only [specEvents, renderSpec]
+    by_cases he : (kids.isEmpty && i.cbe) = true
+    · have hkids : kids = [] := by
+        cases kids with
+        | nil => rfl
+        | cons a b => simp at he
+      subst hkids
+      have hcbe : i.cbe = true := by simpa using he
+      simp [pieces, piece, Payload.isEmptyElement, hcbe]
+    · have hne : (Payload.tag i kids.length).isEmptyElement = false := by
+        simp only [Payload.isEmptyElement, length_zero_isEmpty]
+        simpa using he
+      simp only [he, Bool.false_eq_true, if_false]
+      have := pieces_specEventsL ci fm kids (some k) (some i.name) (k + 1)
+      rw [show ((Ev.start, (⟨k, par, .tag i kids.length⟩ : Item)) :: (specEventsL (some k) (some i.name) (k + 1) kids ++
+          [(Ev.stop, ⟨k, par, .tag i kids.length⟩)])) =
+          [(Ev.start, (⟨k, par, .tag i kids.length⟩ : Item))] ++ specEventsL (some k) (some i.name) (k + 1) kids ++
+          [(Ev.stop, ⟨k, par, .tag i kids.length⟩)] by simp]
+      rw [pieces_append, pieces_append, this]
+      simp [pieces, piece, hne]
+theorem pieces_specEventsL (ci : SCls → ClsInfo) (fm : Fmt) : ∀ (ns : List Node) (par : Option Nat) (pname : Option PStr) (k : Nat),
+    pieces ci fm (specEventsL par pname k ns) = renderL ci fm pname ns
+  | [], _, _, _ => by simp [specEventsL, pieces, renderL]
+  | n :: ns, par, pname, k => by
+    simp only [specEventsL, renderL, pieces_append, pieces_specEvents ci fm n, pieces_specEventsL ci fm ns]
+end
+
+/-- what an event of the stream says about its element: `EMPTY` only for a childless tag that can be empty,
+    `START`/`END` only for the other tags, `STRING` only for strings -/
+def evOK (e : Ev × Item) : Bool :=
+  match e.1, e.2.pl with
+  | .empty, .tag i nk => nk == 0 && i.cbe
+  | .start, .tag i nk => !(nk == 0 && i.cbe)
+  | .stop, .tag i nk => !(nk == 0 && i.cbe)
+  | .string, .str _ _ _ => true
+  | _, _ => false
+
+mutual
+theorem specEvents_ok : ∀ (n : Node) (par : Option Nat) (pname : Option PStr) (k : Nat),
+    ∀ e ∈ specEvents par pname k n, evOK e = true
+  | .str c s, par, pname, k => by simp [specEvents, evOK]
+  | .tag i kids, par, pname, k => by
+    intro e he
+    simp only [specEvents] at he
+    by_cases hc : (kids.isEmpty && i.cbe) = true
+    · simp only [hc, if_true, List.mem_singleton] at he
+      subst he
+      simpa [evOK, length_zero_isEmpty] using hc
+    · have hne : (!(kids.length == 0 && i.cbe)) = true := by
+        rw [length_zero_isEmpty]
+        cases hx : (kids.isEmpty && i.cbe)
+        · rfl
+        · exact absurd hx hc
+      simp only [hc, Bool.false_eq_true, if_false, List.mem_cons, List.mem_append, List.not_mem_nil, or_false] at he
+      rcases he with he | he | he
+      · subst he; simpa [evOK] using hne
+      · exact specEventsL_ok kids _ _ _ e he
+      · subst he; simpa [evOK] using hne
+theorem specEventsL_ok : ∀ (ns : List Node) (par : Option Nat) (pname : Option PStr) (k : Nat),
+    ∀ e ∈ specEventsL par pname k ns, evOK e = true
+  | [], _, _, _ => by simp [specEventsL]
+  | n :: ns, par, pname, k => by
+    intro e he
+    simp only [specEventsL, List.mem_append] at he
+    rcases he with he | he
+    · exact specEvents_ok n _ _ _ e he
+    · exact specEventsL_ok ns _ _ _ e he
+end
+
+/-- a string child of a tag carries the tag's name as `parent.name` -/
+def rawKid (ci : SCls → ClsInfo) (fm : Fmt) (pn : PStr) : Node → PStr
+  | .str c s => (ci c).pre ++ s ++ (ci c).suf
+  | .tag i ks => renderSpec ci fm (some pn) (.tag i ks)
+
+theorem outputReady_cdata (ci : SCls → ClsInfo) (f : Fmt) (pn : PStr) (c : SCls) (s : PStr)
+    (h : f.cdataTags.contains pn = true) :
+    outputReady ci f (some pn) c s = (ci c).pre ++ s ++ (ci c).suf := by
+  simp only [outputReady, substitute, h]
+  cases (ci c).preformatted <;> cases f.subst <;> simp
+
+theorem renderL_cdata (ci : SCls → ClsInfo) (f : Fmt) (pn : PStr) (h : f.cdataTags.contains pn = true) :
+    ∀ (ks : List Node), renderL ci f (some pn) ks = ks.flatMap (rawKid ci f pn)
+  | [] => by simp [renderL]
+  | .str c s :: ks => by
+    simp only [renderL, renderSpec, outputReady_cdata ci f pn c s h, renderL_cdata ci f pn h ks, List.flatMap_cons, rawKid]
+  | .tag i k2 :: ks => by
+    simp only [renderL, renderL_cdata ci f pn h ks, List.flatMap_cons, rawKid]
 
 end BS.Render
